@@ -93,3 +93,5 @@ V('C11', 'neg-alias-branches-swapped', T, TM + 'alias_context',
             else:
                 ctx.modaliases[alias.alias] = alias.module
 ''', None)
+V('C11', 'index-except-tested-not-traced', D, M + 'trace_Index',
+  'exprs.append(ExprDependency(expr=node.except_expr))', 'exprs.append(ExprDependency(expr=node.expr))', 'C11.R2', 'CreateConcreteIndex.except_expr')
